@@ -62,7 +62,6 @@ def _fn(name, env):
       'recsum': lambda r: r['a'] + r['b'] + k,
       'tup': lambda r: r[0] + r[1] + k,
       'ident': lambda x: x,
-      'inc2': lambda x: x + k,
       'gt': lambda x: x > th,
       'gt2': lambda x, y: x + y > th,
       'gtrec': lambda r: r['a'] > th,
@@ -765,7 +764,7 @@ def gen(p, pending):
   # 1. single operators, every key shape
   E.route('single', sort_in(singles_dict(p['full_cross']), 'D', n), 'D', n, False, cap)
   for kind in ('T', 'L'):
-    E.route('single', sort_in(singles_seq(), kind, n), kind, n, kind == 'T' and False, cap)
+    E.route('single', sort_in(singles_seq(), kind, n), kind, n, False, cap)
   # 2. operator sequences
   for depth, ops, nn in p['seqs']:
     shapes = sort_in([list(c) for c in itertools.product(ops, repeat=depth)], 'D', nn)
@@ -793,6 +792,8 @@ def gen(p, pending):
         cases.append(case)
   E.build('build', cases, p['build_cap'])
   # 5. sinks under faults
+  for s in FAULT_SOURCE + FAULT_DOWN + FAULT_UP + FAULT_WRITE:
+    assert not shape_tags(s) and well_formed(g, [op if 'boomat' not in op else (op[0], 'inc') + tuple(op[2:]) for op in s], 'D', n), s
   E.fault('sinkfault', FAULT_SOURCE, 'source', n)
   E.fault('sinkfault', FAULT_DOWN, 'down', n)
   E.fault('sinkfault', FAULT_UP, 'up', n)
@@ -836,10 +837,19 @@ def gen(p, pending):
   return E
 
 
+_BUNDLES = {}
+
+
 def classify(name, call):
+  """Signature of a reproduced counterexample: the pending tag, else the obligation plus the shape the selector picked."""
+  import re
   if name.startswith('ob_pending_'):
     for t in PENDING_TAGS:
       if name.startswith('ob_pending_' + t.replace('-', '_')): return t
+  m = re.match(r'\w+\((?:sel=)?(-?\d+)', call or '')
+  shapes = _BUNDLES.get(name)
+  if m and shapes and 0 <= int(m.group(1)) < len(shapes):
+    return f'{name}:{shapes[int(m.group(1))]!r}'
   return name
 
 
